@@ -20,10 +20,10 @@ package gate
 //@ func mergeConfigPatch
 //@   props C36
 //@   at-call canonicalConfigJSON as canon: assert arg0 == current && current != nil
-//@   at-call Unmarshal#1 as u1: assert arg0 == res(canon, 0) && res(canon, 1) == nil
-//@   at-call Unmarshal#2 as u2: assert called(u1) && res(u1) == nil && streq(bytes(arg0), patch)
+//@   at-call json.Unmarshal#1 as u1: assert arg0 == res(canon, 0) && res(canon, 1) == nil
+//@   at-call json.Unmarshal#2 as u2: assert called(u1) && res(u1) == nil && streq(bytes(arg0), patch)
 //@   at-call applyMergePatch as apply: assert called(u2) && res(u2) == nil && arg0 == target && arg1 == patchValue
-//@   at-call Marshal as enc: assert called(apply) && arg0 == res(apply)
+//@   at-call json.Marshal as enc: assert called(apply) && arg0 == res(apply)
 //@   at-call decodeConfigStrict as dec: assert called(enc) && res(enc, 1) == nil && arg0 == res(enc, 0) && ref(arg2) == &candidate
 //@   ensures [nil-current-rejected] current == nil ==> result.1 != nil && result.0 == nil
 //@   ensures [bad-patch-json-rejected] called(u2) && res(u2) != nil ==> result.1 != nil && result.0 == nil
